@@ -41,6 +41,30 @@ def handle (line : String) : String :=
       | .ok b => s!"ok {b.map (fun p => (p.1, wordsNat p.2))}"
       | .error e => s!"error[{showErrC e}]"
     | _, _ => "bad-case"
+  | some [.list [.atom "crun", .atom dn, .list [.atom "entry", .atom en], .list [.atom "unit", u], .list (.atom "inputs" :: ins)]] =>
+    match dialectOf dn, Driver.Sem.parseInputs ins with
+    | some d, some inputs =>
+      let bufs := inputs.map (fun (p : Nat × Val) => (p.1, (Driver.Sem.wordsOf p.2).map (BitVec.ofNat 32)))
+      match CLike.runUnit d u bufs 20000 (some en) with
+      | .ok b => s!"ok {b.map (fun p => (p.1, wordsNat p.2))}"
+      | .error e => s!"error[{showErrC e}]"
+    | _, _ => "bad-case"
+  | some [.list [.atom "spvrun", .atom en, .list (.atom "spv" :: ws), .list (.atom "inputs" :: ins)]] =>
+    match Driver.Sem.parseInputs ins, ws.mapM Sexp.nat? with
+    | some inputs, some words =>
+      match Spv.decode words with
+      | none => "error[stuck: binary does not decode]"
+      | some b =>
+        match Spv.load b with
+        | none => "error[stuck: module tables]"
+        | some m =>
+          match Spv.run m en (inputs.map (fun (p : Nat × Val) => (p.1, Driver.Sem.wordsOf p.2))) 20000 with
+          | .ok (outs, notes) =>
+            let scName (n : Nat) : String := if n == 4 then "workgroup" else if n == 6 then "private" else "function"
+            if notes.isEmpty then s!"ok {outs}"
+            else s!"error[UB: load of an uninitialised {", ".intercalate (notes.map scName)} variable]"
+          | .error e => s!"error[{Driver.Sem.showErrS e}]"
+    | _, _ => "bad-case"
   | _ => "bad-case line"
 
 end Naga.Driver.CSem
